@@ -267,6 +267,24 @@ impl Metrics {
         (cycle_debits - cycle_credits).max(0.0)
     }
 
+    /// Raw counter values for external verification harnesses: `[total, allocated, dropped,
+    /// freed, marked, traced, remembered]` and `(wakeup_amount, artificial_debt)`.
+    #[cfg(gc_arena_verif)]
+    pub fn verif_counters(&self) -> ([usize; 7], [f64; 2]) {
+        (
+            [
+                self.0.total_gcs.get(),
+                self.0.allocated_gcs.get(),
+                self.0.dropped_gcs.get(),
+                self.0.freed_gcs.get(),
+                self.0.marked_gcs.get(),
+                self.0.traced_gcs.get(),
+                self.0.remembered_gcs.get(),
+            ],
+            [self.0.wakeup_amount.get(), self.0.artificial_debt.get()],
+        )
+    }
+
     pub(crate) fn finish_cycle(&self, reset_debt: bool) {
         let pacing = self.0.pacing.get();
         let remembered_count = self.0.remembered_gcs.get();
